@@ -50,6 +50,9 @@ def _connect_outcome(w):
         raise CRE('m', 'd')
     if o == 'cre3':
         raise CRE('m', 'd1', 'd2')
+    if o == 'boom':
+        # the connect handler fails with something that is not a refusal
+        raise AppError('scripted fault in the connect handler')
     if o == 'creb':
         # refusal data that the refusal packet cannot carry (bytes): the
         # application's mistake, but the server must not keep the client
